@@ -192,6 +192,77 @@ theorem visitKVs_plain_eq_asrep (w : Bool) : ∀ (kvs : KVs) (s : Sch),
         simp only [visit_plain_eq_asrep w v a h.1]
 end
 
+/-! ### header decoding -/
+
+theorem parsePrim_ne_panic (t : Ty) (raw : String) : parsePrim t raw ≠ .panic := by
+  unfold parsePrim
+  split
+  · simp
+  · cases t <;> simp <;> split <;> simp
+
+theorem consItem_of_not_val (x : J) (d : Dec) (h : ∀ v, d ≠ .val v) : consItem x d = d := by
+  cases d with
+  | val v => exact absurd rfl (h v)
+  | err => rfl
+  | nil => rfl
+  | panic => rfl
+
+theorem consItem_ne_panic (x : J) (d : Dec) (h : d ≠ .panic) : consItem x d ≠ .panic := by
+  cases d with
+  | val v => cases v <;> simp [consItem]
+  | err => simp [consItem]
+  | nil => simp [consItem]
+  | panic => exact absurd rfl h
+
+theorem parseArr_some_ne_panic (s : Sch) (l : List String) : parseArr (.some s) l ≠ .panic := by
+  induction l with
+  | nil => simp [parseArr]
+  | cons v r ih =>
+    unfold parseArr
+    cases hp : parsePrim s.core.ty v with
+    | val x => simpa [hp] using consItem_ne_panic x _ ih
+    | err => simp [hp]
+    | nil => simp [hp]
+    | panic => exact absurd hp (parsePrim_ne_panic _ _)
+
+def JL.ofList : List J → JL
+  | [] => .nil
+  | x :: r => .cons x (JL.ofList r)
+
+/-- item by item, the texts parse (as primitives of type t) to the values -/
+inductive ItemsParse (t : Ty) : List String → List J → Prop
+  | nil : ItemsParse t [] []
+  | cons {v : String} {x : J} {l : List String} {xs : List J} :
+      parsePrim t v = .val x → ItemsParse t l xs → ItemsParse t (v :: l) (x :: xs)
+
+/-- every item parses: the array of the parsed items -/
+theorem parseArr_vals (s : Sch) (l : List String) (xs : List J)
+    (h : ItemsParse s.core.ty l xs) :
+    parseArr (.some s) l = .val (.arr (JL.ofList xs)) := by
+  induction h with
+  | nil => rfl
+  | cons hv _ ih => unfold parseArr; simp only [hv, ih, consItem, JL.ofList]
+
+/-- the first item that does not parse to a value decides the whole array -/
+theorem parseArr_first_bad (s : Sch) (pre : List String) (xs : List J) (v : String) (post : List String) (d : Dec)
+    (hpre : ItemsParse s.core.ty pre xs)
+    (hv : parsePrim s.core.ty v = d) (hd : ∀ x, d ≠ .val x) :
+    parseArr (.some s) (pre ++ v :: post) = d := by
+  induction hpre with
+  | nil =>
+    simp only [List.nil_append]
+    unfold parseArr
+    cases d with
+    | val x => exact absurd rfl (hd x)
+    | err => simp [hv]
+    | nil => simp [hv]
+    | panic => simp [hv]
+  | cons hu _ ih =>
+    simp only [List.cons_append]
+    unfold parseArr
+    simp only [hu, ih]
+    exact consItem_of_not_val _ d hd
+
 /-! ### lists, selection -/
 
 theorem firstSome_statusKeys (m : List (String × α)) (status : Int) :
